@@ -77,6 +77,17 @@ def run(ctx):
     for c in batch:
         c["seed"] = c.get("seed", rnd.randrange(1 << 30))
     ctx.log("W2 scenes %d, W1 triangles %d, slivers %d, families %d" % (len(w2), len(w1), len(sl), len(fam)))
-    cands = tr.run(batch, "c18")
+    # trace files of at most ~60k events each (TLC keeps the whole file in memory)
+    est = {"c18.w2": 40, "c18.w1": 6, "c18.sliver": 45}
+    cands, group, size = [], [], 0
+    for c in batch:
+        e = est.get(c["op"], 3 * c.get("count", 1))
+        if group and size + e > 60000:
+            cands += tr.run(group, "c18")
+            group, size = [], 0
+        group.append(c)
+        size += e
+    if group:
+        cands += tr.run(group, "c18")
     ctx.counters["trace_events_validated_by_tlc"] = tr.events
     base.settle(ctx, tr, cands)
